@@ -19,6 +19,7 @@ def main():
             continue
         sd = os.path.join(HERE, "seeded", d)
         meta = json.load(open(os.path.join(sd, "meta.json")))
+        obsolete = meta.get("status") == "obsolete"
         tmp = tempfile.mkdtemp(prefix="cklseed-")
         try:
             shutil.copytree("/repo/src", os.path.join(tmp, "src"),
@@ -45,6 +46,8 @@ def main():
             real = [h for h in hits if not h[1].startswith("ANALYSIS-ERROR")]
             verdict = "CAUGHT" if any(h[0] == own for h in real) else \
                 ("caught-by-other" if real else ("REFUSED(exit2)" if hits else "MISSED"))
+            if obsolete:
+                verdict = "OBSOLETE:" + ("silent-ok" if not real else "ALARM")
             rows.append((d, verdict, "; ".join(f"{p}: {m}" for p, m in hits)))
         finally:
             shutil.rmtree(tmp, ignore_errors=True)
